@@ -1,7 +1,7 @@
 (** * Exe/ExecCheck.v — C01 correspondence: decode a case, run model (and spec oracle), compare
     with what the implementation did.  Executable only. *)
 From Coq Require Import List NArith ZArith Bool String.
-From ApiFu Require Import Base.Sexp Exe.ExecData Exe.ExecModel Exe.ExecSpec Exe.ExecDecode.
+From ApiFu Require Import Base.Sexp Exe.ExecData Exe.ExecModel Exe.ExecSpec Exe.ExecHyps Exe.ExecDecode.
 Import ListNotations.
 Open Scope string_scope.
 
@@ -110,6 +110,7 @@ Definition classes (Sc : schema) (D : document) (sp : response) (m_errs : list g
   (if doc_has (fun s => negb (Nat.eqb (List.length (sel_dirs s)) 0)) D then ["skip-include"] else []) ++
   (if existsb (is_sym "c04-cycle-bypass") flags then ["c04-cycle-bypass"] else []) ++
   (if existsb (is_sym "exhaustive") flags then ["exhaustive-family"] else []) ++
+  (if existsb (is_sym "leaf-family") flags then ["leaf-coercion-family"] else []) ++
   (if errs && (propagated || multi || short) then ["nontrivial"] else []).
 
 Definition check (c : sexp) : sexp :=
@@ -121,7 +122,9 @@ Definition check (c : sexp) : sexp :=
           | ObsRejected => v_oracle_fail "valid-document-rejected" []
           | _ =>
               let fuel := default_fuel D in
-              if negb (doc_ok Sc D E fuel fuel) then v_oracle_fail "validated-document-not-doc-ok" []
+              if negb (type_names_okb Sc) then v_bad "type-name-with-zero-byte"
+              else if negb (doc_positions_okb D) then v_oracle_fail "parser-positions-not-distinct" []
+              else if negb (doc_ok Sc D E fuel fuel) then v_oracle_fail "validated-document-not-doc-ok" []
               else
                 let sp := exec_spec Sc D E fuel W in
                 match oracle sp obs with
